@@ -6,6 +6,11 @@
 #include <complex>
 #include <functional>
 
+namespace Spectra {
+template <typename OpType, typename BOpType> class HermEigsBase;
+template <typename OpType, typename BOpType> class GenEigsBase;
+}
+
 // friend of Arnoldi / Lanczos / HermEigsBase / GenEigsBase / LOBPCGSolver when SPECTRA_VERIF is defined
 struct SpectraVerifAccess
 {
@@ -17,7 +22,9 @@ struct SpectraVerifAccess
     template <class Fac> static Eigen::Index m(const Fac& f) { return f.m_m; }
     template <class Fac> static Eigen::Index n(const Fac& f) { return f.m_n; }
     // solver bases
-    template <class S> static auto fac(S& s) -> decltype((s.m_fac)) { return s.m_fac; }
+    // (deduced on the base class: some derived solvers re-declare base members as private)
+    template <class O, class B> static auto fac(Spectra::HermEigsBase<O, B>& s) -> decltype((s.m_fac)) { return s.m_fac; }
+    template <class O, class B> static auto fac(Spectra::GenEigsBase<O, B>& s) -> decltype((s.m_fac)) { return s.m_fac; }
     template <class S> static auto ritz_val(S& s) -> decltype((s.m_ritz_val)) { return s.m_ritz_val; }
     template <class S> static auto ritz_est(S& s) -> decltype((s.m_ritz_est)) { return s.m_ritz_est; }
     template <class S> static auto ritz_vec(S& s) -> decltype((s.m_ritz_vec)) { return s.m_ritz_vec; }
